@@ -261,6 +261,9 @@ def precedes_on_every_path(z, i):
     """event z is a direct statement of a block that encloses (or is) the block of event i, earlier in it,
     and z is not nested inside a conditional/loop relative to that block"""
     zp, ip = z['path'], i['path']
+    if zp == ip:
+        # statements of one helper body inlined in place of the call share the call's position: they run in order
+        return z['order'] < i['order']
     if len(zp) > len(ip):
         return False
     if zp[:-1] != ip[:len(zp) - 1]:
@@ -271,10 +274,39 @@ def precedes_on_every_path(z, i):
     return a[1] < b[1]
 
 
-CODEC_FNS = [('<rate::rate_high::HighRateEncoder<E> as rate::RateEncoder<E>>::encode', 2),
+# (floors: what any implementation must contain -- at least one truncated IFFT per codec function; how many call sites the
+# chunks are spread over is a matter of loop structure)
+CODEC_FNS = [('<rate::rate_high::HighRateEncoder<E> as rate::RateEncoder<E>>::encode', 1),
              ('<rate::rate_low::LowRateEncoder<E> as rate::RateEncoder<E>>::encode', 1),
              ('<rate::rate_high::HighRateDecoder<E> as rate::RateDecoder<E>>::decode', 1),
              ('<rate::rate_low::LowRateDecoder<E> as rate::RateDecoder<E>>::decode', 1)]
+
+
+def guarded_by_nonempty_tail(ev, z, i, size, trunc):
+    """`if trunc < size { work.zero(pos + trunc..pos + size) }` in front of the transform: when the condition is false the tail
+    is empty (Engine::ifft requires truncated_size <= size), so nothing needs zeroing.  z sits directly in the then-block of an
+    else-less `if` whose condition is exactly `trunc < size` / `trunc != size` / `size > trunc`, and that `if` precedes the
+    transform on every path."""
+    zp = z['path']
+    if len(zp) < 2 or zp[-2] != 'then':
+        return False
+    for f in ev.events:
+        if f['kind'] != 'if' or f['order'] > z['order'] or f['path'] != zp[:-2]:
+            continue
+        nd = f['node']
+        if 'else' in nd:
+            return False
+        c = hcanon(nd['cond'], f['env'])
+        ok = False
+        if isinstance(c, tuple) and c[0] == 'bin':
+            a, b = lin(c[2]), lin(c[3])
+            if c[1] in ('Lt', 'Ne') and a == lin(trunc) and b == lin(size):
+                ok = True
+            if c[1] in ('Gt', 'Ne') and a == lin(size) and b == lin(trunc):
+                ok = True
+        if ok and precedes_on_every_path(f, i):
+            return True
+    return False
 
 
 def ifft_rule(ctx, facts, cfg):
@@ -323,7 +355,7 @@ def ifft_rule(ctx, facts, cfg):
                 if enc is not None and enc != want_end or inc:
                     why = 'zero range ends at %s, the transform needs zeros up to %s' % (hshow(hcanon(en, z['env'])), hshow(('bin', 'Add', pos, size)))
                     continue
-                if not precedes_on_every_path(z, e):
+                if not precedes_on_every_path(z, e) and not guarded_by_nonempty_tail(ev, z, e, size, trunc):
                     why = 'the matching zero() at %s is conditional relative to the transform' % z['node'].get('line')
                     continue
                 # no assignment to a variable of the expressions in between
@@ -344,7 +376,7 @@ def ifft_rule(ctx, facts, cfg):
         total += n_here
         if n_here < expected:
             ctx.violation(R, 'floor:%s' % core.short(p), 'expected instance missing: %d truncated IFFT(s) found in %s, floor %d' % (n_here, p, expected), fn=p, cfg=cfg)
-    ctx.floor(R, 5, total, 'truncated IFFT call sites', cfg=cfg)
+    ctx.floor(R, 4, total, 'truncated IFFT call sites', cfg=cfg)
 
 
 def strip_mutref(c):
